@@ -6,7 +6,7 @@
  * Schedules = EVERY partition for streams of <= 14 bytes, otherwise every partition with <= 2 cut points,
  * every uniform chunk size and all-at-once; reference schedule = one byte per call.  Input buffer of 256
  * bytes and of exactly stream length + 1.
- * Compared: handler invocations with parameters, output bytes, flush positions, error callbacks, the drained
+ * Compared: handler invocations with parameters, output bytes, error callbacks, the drained
  * error queue (codes and texts) and the unconsumed remainder.  Second clause: for every prefix p on which
  * SCPI_Input executes nothing, SCPI_Input(p) followed by a zero-length call behaves like SCPI_Parse(p) on a
  * fresh context and leaves the buffer empty.
@@ -164,6 +164,7 @@ int main(int argc, char ** argv) {
     char s[400];
     mc_init(argc, argv);
     mc_tail_poison = 1;
+    tc_log_flush = 0;        /* when the interface is flushed is C06's subject (once per responding message); C08 names handlers, output bytes, errors, remainder */
     tc_init(&T, mt_cmds, 256, 64);
     K = mc_thorough ? 4 : 3;
 #if USE_DEVICE_DEPENDENT_ERROR_INFORMATION && !USE_MEMORY_ALLOCATION_FREE
